@@ -13,8 +13,13 @@ for key, (chg, needs, det, fu, by) in S.items():
     os.makedirs(dst, exist_ok=True)
     for f in os.listdir(src):
         fp = os.path.join(src, f)
-        if os.path.isfile(fp) and os.path.getsize(fp) < 300_000 and (f in ('patch.diff', 'README.md') or f.startswith('demo') or f.endswith('.py')):
-            shutil.copy(fp, dst)
+        if os.path.isfile(fp) and os.path.getsize(fp) < 400_000:
+            shutil.copy(fp, dst)  # patch, README, demonstration and its small data files
+        elif os.path.isdir(fp) and sum(os.path.getsize(os.path.join(r, x)) for r, _, fs in os.walk(fp) for x in fs) < 1_000_000:
+            shutil.copytree(fp, os.path.join(dst, f), dirs_exist_ok=True)
+    gen = os.path.join(os.path.dirname(src), 'gen_data.py')
+    if os.path.isfile(gen):
+        shutil.copy(gen, dst)
     meta = {"property": P, "name": f"{P}-r{RND}{M}", "round": RND, "author": (author3 if RND == 3 else author), "change": chg, "needs_to_manifest": needs,
             "confirmed": {"repo_head": head, "applies_and_builds": True, "pinned_unit_tests_of_touched_packages_still_pass": True,
                           "demonstration_fails_with_patch_and_passes_without": True,
